@@ -58,6 +58,10 @@ M = [
  ("c03-mesh-header-relay-suppressed", "C03", "p2p/src/peer.rs", "\tpub fn send_header(&self, bh: &core::BlockHeader) -> Result<bool, Error> {\n\t\tif !self.tracking_adapter.has_recv(bh.hash()) {", "\tpub fn send_header(&self, bh: &core::BlockHeader) -> Result<bool, Error> {\n\t\tif self.tracking_adapter.has_recv(bh.hash()) {", ["C03"]),
  ("c14-mesh-tx-relay-by-full-tx-dropped", "C14", "servers/src/common/adapters.rs", "\t\tlet tx = self.tx_pool.read().retrieve_tx_by_kernel_hash(kernel_hash);\n\n\t\tif tx.is_none() {\n\t\t\tself.request_transaction(kernel_hash, peer_info);\n\t\t}", "\t\tlet tx = self.tx_pool.read().retrieve_tx_by_kernel_hash(kernel_hash);\n\n\t\tif tx.is_some() {\n\t\t\tself.request_transaction(kernel_hash, peer_info);\n\t\t}", ["C14"]),
  ("c18-resize-check-skipped-when-busy", "C18", "store/src/lmdb.rs", "\t\t\tif nested_tx {\n\t\t\t\treturn;\n\t\t\t}\n\t\t\tthread::sleep(Duration::from_millis(1));", "\t\t\tlet _ = nested_tx;\n\t\t\treturn;", ["C18"]),
+ ("sync-header-stall-never-rerequests", "C03", "servers/src/grin/sync/header_sync.rs", "\t\tlet stalling = header_head.height <= latest_height && now > timeout;", "\t\tlet stalling = false && header_head.height <= latest_height && now > timeout;", ["C03", "C16"]),
+ ("sync-body-skips-first-block-after-fork-point", "C03", "servers/src/grin/sync/body_sync.rs", "\t\twhile current.height > fork_point.height {", "\t\twhile current.height > fork_point.height + 1 {", ["C03", "C16"]),
+ ("sync-pibd-stale-requests-never-dropped", "C16", "servers/src/grin/sync/state_sync.rs", "\t\t\t.remove_stale_pibd_requests(pibd_params::SEGMENT_REQUEST_TIMEOUT_SECS);", "\t\t\t.remove_stale_pibd_requests(pibd_params::SEGMENT_REQUEST_TIMEOUT_SECS * 1_000_000);", ["C16"]),
+ ("sync-caught-up-needs-strictly-less", "C03", "servers/src/grin/sync/syncer.rs", "\t\t\tif peer_info.total_difficulty() <= local_diff {", "\t\t\tif peer_info.total_difficulty() < local_diff {", ["C03", "C16"]),
 ]
 
 def sh(cmd, **kw):
